@@ -16,6 +16,19 @@ type c04Spec struct {
 	opts []string // option words the executor knows
 }
 
+// number of arguments of each command's canonical form (the harness also tries fewer and more)
+var c04Arity = map[string]int{
+	"set": 2, "get": 1, "getrange": 3, "setrange": 3, "mget": 2, "mset": 2, "setex": 3, "setnx": 2, "strlen": 1,
+	"incr": 1, "incrby": 2, "decr": 1, "decrby": 2, "incrbyfloat": 2, "append": 2, "ping": 1, "del": 2, "exists": 2,
+	"keys": 1, "expire": 3, "persist": 1, "ttl": 1, "type": 1, "rename": 2, "llen": 1, "lindex": 2, "lpos": 4,
+	"lpop": 2, "rpop": 2, "lpush": 2, "lpushx": 2, "rpush": 2, "rpushx": 2, "lset": 3, "lrem": 3, "ltrim": 3,
+	"lrange": 3, "lmove": 4, "sadd": 2, "scard": 1, "sdiff": 2, "sdiffstore": 3, "sinter": 2, "sinterstore": 3,
+	"sismember": 2, "smembers": 1, "smove": 3, "spop": 2, "srandmember": 2, "srem": 2, "sunion": 2, "sunionstore": 3,
+	"sscan": 3, "hdel": 2, "hexists": 2, "hget": 2, "hgetall": 1, "hincrby": 3, "hincrbyfloat": 3, "hkeys": 1,
+	"hlen": 1, "hmget": 2, "hset": 3, "hsetnx": 3, "hvals": 1, "hstrlen": 2, "hrandfield": 3, "zadd": 4, "zrange": 4,
+	"zrem": 2, "zrank": 2, "xadd": 4, "xrange": 3, "publish": 2, "rconf": 3, "member": 1,
+}
+
 var c04Table = map[string]c04Spec{
 	"set": {'s', []string{"nx", "xx", "get", "ex", "px", "exat", "keepttl"}}, "get": {'s', nil}, "getrange": {'s', nil},
 	"setrange": {'s', nil}, "mget": {'s', nil}, "mset": {'s', nil}, "setex": {'s', nil}, "setnx": {'s', nil},
@@ -53,17 +66,36 @@ func c04World() *MemDb {
 	return m
 }
 
-// c04Arg: one argument from the alphabet for this command.
+// c04Arg: one argument from the alphabet for this command and position.
 func c04Arg(name string, sp c04Spec, first bool) []byte {
-	nalt := 7
-	if len(sp.opts) > 0 {
-		nalt = 8
+	if first && sp.typ != '-' {
+		switch vfChoice(name, 4) {
+		case 0:
+			return bs(c04Keys[sp.typ])
+		case 1:
+			if sp.typ == 'l' {
+				return bs("ks")
+			}
+			return bs("kl") // a key of another type
+		case 2:
+			return bs("nokey")
+		}
+		return vfBytes(name+".b", 0, 1)
 	}
-	switch vfChoice(name, nalt) {
-	case 6:
-		// concrete numerals with a byte-level view (boundary values, non-canonical spellings)
-		nums := []string{"0", "1", "-1", "2", "9223372036854775807", "-9223372036854775808", "4294967296", "+3", "1.5"}
-		return bs(nums[vfChoice(name+".num", len(nums))])
+	// quick: 6 alternatives (+ option words); thorough adds three more boundary numerals
+	nalt := 6
+	if c04Wide {
+		nalt = 9
+	}
+	k := vfChoice(name, nalt+1)
+	if k == nalt {
+		if len(sp.opts) == 0 {
+			vfAssume(false)
+		}
+		w := sp.opts[vfChoice(name+".opt", len(sp.opts))]
+		return vfCase(name+".case", w)
+	}
+	switch k {
 	case 0:
 		return vfBytes(name+".b", 0, 1)
 	case 1:
@@ -74,17 +106,25 @@ func c04Arg(name string, sp c04Spec, first bool) []byte {
 		}
 		return bs("ks")
 	case 3:
-		// a key of another type
 		if sp.typ == 'l' {
 			return bs("ks")
 		}
 		return bs("kl")
 	case 4:
-		return bs("nokey")
-	case 5:
 		return bs("a") // an existing member / field / element
+	case 5:
+		return bs("9223372036854775807")
+	case 6:
+		return bs("0")
+	case 7:
+		return bs("-1")
 	}
-	// case 7
+	return bs("-9223372036854775808")
+}
+
+var c04Wide bool
+
+func c04Unused(sp c04Spec, name string) []byte {
 	w := sp.opts[vfChoice(name+".opt", len(sp.opts))]
 	return vfCase(name+".case", w)
 }
@@ -116,7 +156,23 @@ func c04Run(lo, hi, maxArgs int) {
 	if name == "blpop" || name == "brpop" || name == "subscribe" {
 		return // blocking commands have their own harness
 	}
-	nargs := vfChoice("nargs", maxArgs+1)
+	// argument counts: none, one, the canonical arity, one more (thorough: also two and arity+2)
+	ar, okA := c04Arity[name]
+	if !okA {
+		ar = 2
+	}
+	counts := []int{0, ar}
+	if ar >= 2 {
+		counts = append(counts, 1)
+	}
+	if maxArgs > 0 {
+		c04Wide = true
+		counts = append(counts, ar+1, ar+2)
+		if ar > 2 {
+			counts = append(counts, 2)
+		}
+	}
+	nargs := counts[vfChoice("nargs", len(counts))]
 	args := [][]byte{vfCase("cmdcase", name)}
 	for i := 0; i < nargs; i++ {
 		args = append(args, c04Arg("a"+string(rune('0'+i)), sp, i == 0))
@@ -136,15 +192,15 @@ func c04Run(lo, hi, maxArgs int) {
 	vfAssert(vfLocksHeld() == 0, "stripe-left-locked-after-probes")
 }
 
-func VF_C04_any_a_quick() { c04Run(0, 24, 2) }
-func VF_C04_any_b_quick() { c04Run(24, 48, 2) }
-func VF_C04_any_c_quick() { c04Run(48, 72, 2) }
-func VF_C04_any_d_quick() { c04Run(72, 200, 2) }
+func VF_C04_any_a_quick() { c04Run(0, 24, 0) }
+func VF_C04_any_b_quick() { c04Run(24, 48, 0) }
+func VF_C04_any_c_quick() { c04Run(48, 72, 0) }
+func VF_C04_any_d_quick() { c04Run(72, 200, 0) }
 
-func VF_C04_any_a_thorough() { c04Run(0, 24, 3) }
-func VF_C04_any_b_thorough() { c04Run(24, 48, 3) }
-func VF_C04_any_c_thorough() { c04Run(48, 72, 3) }
-func VF_C04_any_d_thorough() { c04Run(72, 200, 3) }
+func VF_C04_any_a_thorough() { c04Run(0, 24, 1) }
+func VF_C04_any_b_thorough() { c04Run(24, 48, 1) }
+func VF_C04_any_c_thorough() { c04Run(48, 72, 1) }
+func VF_C04_any_d_thorough() { c04Run(72, 200, 1) }
 
 // unknown command names, in any case, never reach an executor
 func VF_C04_unknown() {
@@ -154,3 +210,26 @@ func VF_C04_unknown() {
 	_ = got
 	vfAssert(vfLocksHeld() == 0, "stripe-left-locked-after-unknown")
 }
+
+// KEYS with every pattern skeleton (metacharacters + symbolic literals) over a live keyspace
+func c04KeysPattern(maxLen int) {
+	vfOpt("hangcheck", 1)
+	m := c04World()
+	n := vfChoice("patlen", maxLen+1)
+	pat := make([]byte, n)
+	metas := []byte{'*', '?', '[', ']', '^', '-', '\\'}
+	for i := 0; i < n; i++ {
+		nm := "p" + string(rune('0'+i))
+		k := vfChoice(nm+".class", len(metas)+1)
+		if k < len(metas) {
+			pat[i] = metas[k]
+		} else {
+			pat[i] = vfByte(nm)
+		}
+	}
+	hExec(m, bs("keys"), pat)
+	vfAssert(vfLocksHeld() == 0, "stripe-left-locked-after-keys")
+}
+
+func VF_C04_keys_pattern_quick()    { c04KeysPattern(4) }
+func VF_C04_keys_pattern_thorough() { c04KeysPattern(5) }
